@@ -876,6 +876,14 @@ func TestReplay(t *testing.T) {
 	}
 	c := ev.New("C13", "replay", "exploration")
 	t.Cleanup(c.Flush)
+	if doc.Check == "concurrent" {
+		var cc concCase
+		if err := json.Unmarshal(doc.Data, &cc); err != nil {
+			t.Fatalf("bad replay data: %v", err)
+		}
+		runConcurrent(t, c, cc)
+		return
+	}
 	var h history
 	if err := json.Unmarshal(doc.Data, &h); err != nil {
 		t.Fatalf("bad replay data: %v", err)
